@@ -27,7 +27,7 @@ def gen_case(rng, max_threads, max_blocks):
 
 
 def line_for(n, scripts, sched):
-    return "%d | %s | %s" % (n, " | ".join(" ".join(s) for s in scripts), sched)
+    return "%s | %s | %s" % (n, " | ".join(" ".join(s) for s in scripts), sched)
 
 
 def parse_impl(line):
@@ -84,6 +84,9 @@ def main(pid, tier, seed, replay):
     for i in range(n_cases):
         r = rng.fork("case%d" % i)
         n, scripts = gen_case(r, 4 if i % 3 else 3, 3 if i % 2 else 4)
+        if i % 4 == 0:
+            # initial version next to the wrap-around of the 32-bit counter (reached after 2^30 completed writes) or negative
+            n = "%d@%d" % (n, r.choice([2147483646, 2147483644, 2147483642, -2147483648, -2147483646, -2, -4]))
         cases.append((n, scripts, "random %d %d" % (r.next() % (1 << 31), r.choice([20, 50, 80]))))
     if tier == "thorough":
         # systematic part: every interleaving of 2 clients x 1 block (all 49 block pairs): all tid strings of length 10
